@@ -58,6 +58,10 @@ class C20(Prop):
                 case["link"] = r.randint(1, depth - 1)      # that level is a symbolic link to a directory elsewhere
                 case["start"] = r.randint(case["link"], depth - 1)
             cases.append(case)
+        # very large directories: a marker among several thousand other entries is still seen (the whole directory is listed)
+        for j in range(4 if n < 1000 else 12):
+            kind, name = (tm + om)[(7 * j) % len(tm + om)]
+            cases.append({"id": n + j, "levels": [[], [[name, kinds[kind]]]], "start": 1, "filler": 3000})
         return cases
 
     def correspond(self, tier, seed, deep=False):
@@ -115,7 +119,7 @@ class C20(Prop):
             impl = "O[" + ",".join(str(len(x)) for x in sorted(inside, key=len, reverse=True)) + "] T[" + \
                 ",".join("[" + ",".join(sorted(e["types"])) + "]" for e in o["dirs"]) + "]"
             names = {n for l in case["levels"] for n, _ in l}
-            c.count(f"depth={len(case['levels'])}")
+            c.count(f"depth={len(case['levels'])}" + (" (3000 filler entries)" if case.get("filler") else ""))
             c.count("chain from the file system root (chroot)" if case.get("chroot") else ("symlinked level" if "link" in case else "plain chain"))
             c.count(f"origins_in_case={sum(1 for x in o['origins'] if len(x) >= len(o['start']) - case['start'])}")
             if names - {"README", "src", "x.txt", "cargo.toml", ".gitignore"}:
